@@ -148,6 +148,12 @@ static std::string handle(std::string const& op, std::vector<std::string> const&
   if (op == "uripath") { request_uri u(hu::unhex(a[0])); return hu::hex(u.path()); }
   if (op == "routeparams") return show_params(get_route_parameters(hu::unhex(a[0]), hu::unhex(a[1])));
   if (op == "route") return do_route(a);
+  if (op == "routeauth")
+  {
+    // do_route(regs, method, target, header lines, users, realm)
+    std::vector<std::string> b{a[0], a[1], a[2], a[3] == "NONE" ? std::string("-") : hu::hex("Authorization: " + hu::unhex(a[3]) + "\r\n"), a[4], a[5]};
+    return do_route(b);
+  }
   if (op == "b64enc") return hu::hex(authentication::base64::encode(hu::unhex(a[0])));
   if (op == "b64dec") return hu::hex(authentication::base64::decode(hu::unhex(a[0])));
   if (op == "b64rt") return hu::hex(authentication::base64::decode(authentication::base64::encode(hu::unhex(a[0]))));
